@@ -192,4 +192,49 @@ def pre (w : World) (v : View) : GAction → Bool
   | .block src tgt blocked =>
       decide (src ∈ v.controlled) && decide (tgt ∈ v.controlled) && w.allowed src tgt && decide (tgt ≠ blocked)
 
+/-- the individual guards of `pre`, in the order of the property statement (used only to classify
+test inputs: a case is non-trivial for C02 when exactly one guard is false) -/
+def preGuards (w : World) (v : View) : GAction → List Bool
+  | .scan src _ => [decide (src ∈ v.controlled)]
+  | .findServices src tgt => [decide (src ∈ v.controlled), w.allowed src tgt]
+  | .findData src tgt => [decide (src ∈ v.controlled), w.allowed src tgt, decide (tgt ∈ v.controlled)]
+  | .exploit src tgt svc =>
+      [decide (src ∈ v.controlled), w.allowed src tgt, decide (svc ∈ w.servicesOf tgt (tgt :: v.controlled)),
+       decide (svc ∈ (alookup tgt v.services).getD [])]
+  | .exfil src tgt d =>
+      [decide (src ∈ v.controlled), decide (tgt ∈ v.controlled), w.allowed src tgt,
+       decide (d ∈ (alookup src v.data).getD [])]
+  | .block src tgt blocked =>
+      [decide (src ∈ v.controlled), decide (tgt ∈ v.controlled), w.allowed src tgt, decide (tgt ≠ blocked)]
+
+theorem pre_eq_all_guards (w : World) (v : View) (a : GAction) : pre w v a = (preGuards w v a).all id := by
+  cases a <;> simp [pre, preGuards, Bool.and_assoc]
+
+/-- executable form of `Inv`, used by the driver to evaluate the invariant on views returned by the
+real implementation -/
+def invB (w : World) (v : View) : Bool :=
+  v.controlled.all (fun x => decide (x ∈ v.known)) &&
+  (akeys v.services).all (fun k => decide (k ∈ v.known)) &&
+  (akeys v.data).all (fun k => decide (k ∈ v.controlled)) &&
+  v.known.all (fun x => decide (x ∈ akeys w.hostname)) &&
+  (akeys v.services).all (fun k => (agetD k v.services).all (fun s =>
+      match alookup k w.hostname with
+      | none => false
+      | some hn => match alookup hn w.services with
+        | none => false
+        | some ss => decide (s ∈ ss))) &&
+  (akeys v.data).all (fun k => (agetD k v.data).all (fun d =>
+      match alookup k w.hostname with
+      | none => false
+      | some hn => decide (d ∈ agetD hn w.data)))
+
+
+/-- executable form of `View.le` -/
+def leB (v v' : View) : Bool :=
+  v.nets.all (fun n => decide (n ∈ v'.nets)) && v.known.all (fun x => decide (x ∈ v'.known)) &&
+  v.controlled.all (fun x => decide (x ∈ v'.controlled)) &&
+  (akeys v.data).all (fun k => decide (k ∈ akeys v'.data) && (agetD k v.data).all (fun d => decide (d ∈ agetD k v'.data))) &&
+  (akeys v.blocks).all (fun k => decide (k ∈ akeys v'.blocks) && (agetD k v.blocks).all (fun d => decide (d ∈ agetD k v'.blocks)))
+
+
 end NSG
